@@ -81,6 +81,47 @@ def iter {α : Type} (f : α → α) : Nat → α → α
 
 end
 
+/-! ### Solutions are opaque to the acceptance; sequences of acceptances on one state -/
+
+section
+variable {F : Type}
+
+/-- Renames the solution (tag) of every individual on the stack; objective values stay. -/
+def relabel (g : Nat → Nat) (s : Stk F) : Stk F :=
+  s.map (fun p => p.map (fun i => { i with tag := g i.tag }))
+
+/-- One pass of the annealing loop as the acceptance sees it: the freshly evaluated candidate,
+the temperature in force and the uniform draw available to this execution. -/
+structure Step (F : Type) where
+  cand : Ind F
+  t : F
+  u : F
+
+/-- The individual that is the current solution after a sequence of passes (pure fold): every
+decision compares the candidate with the objective value of the survivor of the pass before. -/
+def chainSurvivor [Sub F] [Div F] [LT F] [LE F] [DecidableLT F] [DecidableLE F] (exp : F → F) (cur : Ind F) :
+    List (Step F) → Ind F
+  | [] => cur
+  | st :: rest => chainSurvivor exp (if accepts exp cur.obj st.cand.obj st.t st.u then st.cand else cur) rest
+
+/-- The same on the stack, through `acceptStep`: each pass pushes its single-individual candidate
+population and executes the acceptance; the first pass that does not end `ok` stops the chain. -/
+def acceptChain [Sub F] [Div F] [LT F] [LE F] [DecidableLT F] [DecidableLE F] (exp : F → F) :
+    List (Step F) → Stk F → Status × Stk F
+  | [], s => (.ok, s)
+  | st :: rest, s =>
+    match acceptStep exp st.t st.u ([st.cand] :: s) with
+    | (.ok, s', _) => acceptChain exp rest s'
+    | (r, s', _) => (r, s')
+
+/-- Every candidate of the sequence is at least as good as the one before (the first one as the
+initial current solution with objective `o`). -/
+def notWorseChain [LE F] (o : F) : List (Step F) → Prop
+  | [] => True
+  | st :: rest => st.cand.obj ≤ o ∧ notWorseChain st.cand.obj rest
+
+end
+
 /-! ### The `gen::<f64>()` word mapping (rand 0.8: `(w >> 11) · 2⁻⁵³`) as exact integers -/
 
 /-- The 53-bit numerator of the uniform draw produced from a 64-bit word. -/
